@@ -729,6 +729,22 @@ func (ec *evalCtx) callSpec(x *spec.Call) Val {
 		_, _, ks, _, _ := fc.mapKeys(it.mt)
 		k := ec.scalar(ec.eval(x.Args[0]), x)
 		return Val{T: smt.Select(fc.readKey(ec.cur, it.visKey, it.ref, smt.Arr(ks, smt.Bool)), k)}
+	case "ranged":
+		// ranged(): the map the loop under contract ranges over (it may have no name in the source)
+		li := fc.specLoop
+		if li == nil {
+			ec.fail("ranged: only meaningful in the contract of a loop that ranges over a map")
+		}
+		for _, in := range li.header.Instrs {
+			if nx, ok := in.(*ssa.Next); ok {
+				if r, ok := nx.Iter.(*ssa.Range); ok {
+					if it := fc.iters[r]; it != nil {
+						return Val{T: it.m, GoT: r.X.Type()}
+					}
+				}
+			}
+		}
+		ec.fail("ranged: the loop does not range over a modelled map")
 	case "islit":
 		// islit(x, "text"): decided statically when x is a string literal, else the equality
 		v := ec.scalar(ec.eval(x.Args[0]), x)
